@@ -11,8 +11,8 @@
    [r_c22]  : known class "blank-line-in-literal" (a physical line inside a literal holds only white
               space and is not exactly one blank) *)
 From Coq Require Import String Ascii Bool List Sorted.
-From CBI Require Import Lib.Data Model.C05 Model.C05g Gen.C05_tables Spec.C05 Spec.C05f Model.C05r
-                        Proofs.C05n Proofs.C05g Proofs.C05.
+From CBI Require Import Lib.Data Model.C05 Model.C05g Gen.C05_tables Spec.C05 Spec.C05f Spec.C05i Model.C05r
+                        Proofs.C05n Proofs.C05g Proofs.C05i Proofs.C05.
 Import ListNotations.
 Local Open Scope string_scope.
 
@@ -76,6 +76,75 @@ Theorem C05_directive_extent_raw :
       t_total_sloc tr = List.length (concat (map fst (r_logical (F_scan t)))).
 Proof. exact nodes_spec_raw. Qed.
 Print Assumptions C05_directive_extent_raw.
+
+(* ---------- against the literal ISO reading (Spec/C05i.v) ----------
+   [iso_scan t]: phase 2 deletes every backslash-newline of the character sequence
+   (a missing final new-line is supplied), phase 3 recognises comments by LOOK-AHEAD
+   (`/` `*` ... first `*` `/`;  `/` `/` ... before the new-line;  nothing inside
+   "..." and '...'), a line is counted iff a surviving non-white character stands
+   on it, a logical line is a directive iff its first surviving non-white character
+   is `#`.  No pending states, no mode stack.
+
+   The look-ahead reading and the pending-state scanner agree on well-formedness
+   for EVERY text the code accepts, and on the logical lines unless the text ends
+   in backslash-newline (ill-formed for both). *)
+Theorem C05_iso_equals_scanner :
+  forall (t : list ascii) (ls : list (pline ascii)),
+    plines_of_text t = Some ls ->
+    iso_wf (iso_scan t) = r_wf (S_scan (cls_lines ls)) /\
+    (ends_bs_nl (norm_nl t) = false -> iso_logical (iso_scan t) = r_logical (S_scan (cls_lines ls))).
+Proof. exact iso_eq. Qed.
+Print Assumptions C05_iso_equals_scanner.
+
+(* the only texts without a physical-line form are those ending in a backslash that no
+   new-line follows; there c_file_source raises and nothing is counted *)
+Theorem C05_bare_backslash :
+  forall (t : list ascii),
+    (plines_of_text t = None <-> ends_bare_bs t = true) /\
+    (ends_bare_bs t = true -> M_file_source t = FsErr "RuntimeError" /\ M_parse_file t = None).
+Proof. intros t. split; [apply plines_none_iff | apply bare_backslash_raises]. Qed.
+Print Assumptions C05_bare_backslash.
+
+(* S on the raw characters (Spec/C05f.v) no longer needs the final new-line once one is
+   supplied; without it the hypothesis IS necessary: for the one-character text "/" the
+   un-normalised scan never resolves the pending slash *)
+Theorem C05_raw_scan_any_text :
+  forall (t : list ascii) (ls : list (pline ascii)),
+    plines_of_text t = Some ls -> F_scan (norm_nl t) = S_scan (cls_lines ls).
+Proof. exact F_scan_norm_eq. Qed.
+Print Assumptions C05_raw_scan_any_text.
+Example C05_final_newline_needed :
+  let t := list_of_string "/" in
+  r_logical (F_scan t) = [] /\
+  option_map (fun ls => r_logical (S_scan (cls_lines ls))) (plines_of_text t) = Some [([1], false)] /\
+  iso_logical (iso_scan t) = [([1], false)] /\ M_counted t = Some [1].
+Proof. vm_compute. auto. Qed.
+
+(* THE MAIN STATEMENTS AGAINST THE ISO READING.  For every text that does not end in a
+   bare backslash, is well-formed by the look-ahead reading and lies outside the two
+   recorded classes: c_file_source yields exactly the ISO logical lines (counted
+   physical lines, directive flag), parse_file exactly the ISO nodes. *)
+Theorem C05_counted_lines_iso :
+  forall (t : list ascii),
+    ends_bare_bs t = false ->
+    iso_wf (iso_scan t) = true -> in_class20 t = false -> in_class22 t = false ->
+    exists out total n,
+      M_file_source t = FsOk out total n /\
+      map (fun l : lline osl => (ll_lines l, match ll_cat l with CPPD => true | _ => false end)) out
+        = iso_logical (iso_scan t) /\
+      flat out = iso_counted t.
+Proof. exact counted_lines_iso. Qed.
+Print Assumptions C05_counted_lines_iso.
+
+Theorem C05_directive_extent_iso :
+  forall (t : list ascii),
+    ends_bare_bs t = false ->
+    iso_wf (iso_scan t) = true -> in_class20 t = false -> in_class22 t = false ->
+    exists tr, M_parse_file t = Some tr /\
+      map (fun x => (n_kind x, n_lines x)) (t_nodes tr) = iso_nodes t /\
+      t_total_sloc tr = List.length (iso_counted t).
+Proof. exact nodes_spec_iso. Qed.
+Print Assumptions C05_directive_extent_iso.
 
 (* For EVERY text on which parse_file succeeds (well-formed or not, inside the
    known classes or not): the lines of all nodes, in tree order, are strictly
@@ -155,7 +224,10 @@ Example C05_nonvacuous :
       r_wf r = true /\ r_c20 r = false /\ r_c22 r = false /\
       S_nodes (cls_lines ls) = [(NCode, [1; 3; 4]); (NDir, [6; 7])] /\
       option_map (fun tr => map (fun x => (n_kind x, n_lines x)) (t_nodes tr)) (M_parse_file C05_example)
-        = Some [(NCode, [1; 3; 4]); (NDir, [6; 7])]
+        = Some [(NCode, [1; 3; 4]); (NDir, [6; 7])] /\
+      ends_bare_bs C05_example = false /\ iso_wf (iso_scan C05_example) = true /\
+      in_class20 C05_example = false /\ in_class22 C05_example = false /\
+      iso_nodes C05_example = [(NCode, [1; 3; 4]); (NDir, [6; 7])]
   | None => False
   end.
 Proof. vm_compute. repeat split; reflexivity. Qed.
